@@ -51,6 +51,9 @@ pub fn run_case(ctx: &mut Ctx, case: &Value) {
     let exp = case["exp"].as_bool().unwrap_or(false);
     let mut header = Header::new(alg.clone());
     header.typ = Some("sd-jwt".to_string());
+    // two cases in five issue once or twice more from the same issuer object first
+    let reissue = case.get("reissue").and_then(|v| v.as_u64())
+        .unwrap_or_else(|| [0u64, 0, 0, 1, 2][(crate::report::hash_of(&case["tree"]) % 5) as usize]) as usize;
     let req = IssueReq {
         claims: &claims,
         paths: &paths,
@@ -58,9 +61,10 @@ pub fn run_case(ctx: &mut Ctx, case: &Value) {
         cnf: if kb { Some(&jwk) } else { None },
         header: Some(header),
         exp_in: if exp { Some(3600) } else { None },
-        repeats: 1,
+        repeats: 1 + reissue,
     };
     ctx.report.evaluations += 1;
+    ctx.report.bump(&format!("issued-after-{}-earlier-encodes", reissue));
     ctx.report.bump(&format!("marks:{}", marks.len().min(8)));
     ctx.report.bump(&format!("depth:{}", tree.depth()));
     ctx.report.bump(&format!("alg:{}", keys::alg_name(&alg)));
@@ -74,7 +78,7 @@ pub fn run_case(ctx: &mut Ctx, case: &Value) {
 
     let issued = real::issue(&req, &enc);
     let token = match &issued {
-        Out::Ok(ts) => ts[0].clone(),
+        Out::Ok(ts) => ts[ts.len() - 1].clone(),
         other => {
             ctx.report.bump(&format!("issue:{}", other.class()));
             ctx.report.diff("property", "Issuer::encode", &format!("Issuer::encode:valid-marking:{}", out_sig(other)), case,
